@@ -229,6 +229,11 @@ func (o *OvsdbServer) Cancel(client *rpc2.Client, args []interface{}, reply *[]i
 
 // Monitor monitors a given database table and provides updates to the client via an RPC callback
 func (o *OvsdbServer) Monitor(client *rpc2.Client, args []json.RawMessage, reply *ovsdb.TableUpdates) error {
+	// a monitor set up while a transaction is between notifying the
+	// existing monitors and committing would miss that transaction for good:
+	// it is not in the initial contents and no notification will follow
+	o.txnMutex.Lock()
+	defer o.txnMutex.Unlock()
 	var db string
 	if err := json.Unmarshal(args[0], &db); err != nil {
 		return fmt.Errorf("database %v is not a string", args[0])
@@ -275,6 +280,11 @@ func (o *OvsdbServer) Monitor(client *rpc2.Client, args []json.RawMessage, reply
 
 // MonitorCond monitors a given database table and provides updates to the client via an RPC callback
 func (o *OvsdbServer) MonitorCond(client *rpc2.Client, args []json.RawMessage, reply *ovsdb.TableUpdates2) error {
+	// a monitor set up while a transaction is between notifying the
+	// existing monitors and committing would miss that transaction for good:
+	// it is not in the initial contents and no notification will follow
+	o.txnMutex.Lock()
+	defer o.txnMutex.Unlock()
 	var db string
 	if err := json.Unmarshal(args[0], &db); err != nil {
 		return fmt.Errorf("database %v is not a string", args[0])
@@ -321,6 +331,11 @@ func (o *OvsdbServer) MonitorCond(client *rpc2.Client, args []json.RawMessage, r
 
 // MonitorCondSince monitors a given database table and provides updates to the client via an RPC callback
 func (o *OvsdbServer) MonitorCondSince(client *rpc2.Client, args []json.RawMessage, reply *ovsdb.MonitorCondSinceReply) error {
+	// a monitor set up while a transaction is between notifying the
+	// existing monitors and committing would miss that transaction for good:
+	// it is not in the initial contents and no notification will follow
+	o.txnMutex.Lock()
+	defer o.txnMutex.Unlock()
 	var db string
 	if err := json.Unmarshal(args[0], &db); err != nil {
 		return fmt.Errorf("database %v is not a string", args[0])
